@@ -76,7 +76,8 @@ class C19(Property):
             "protocluster cores that tile the record (core_start == core_end); regions that span the origin and tile the whole record (`[s,L)+[0,s)`, by two children or "
             "by one child doing so alone); twins: two different protoclusters with the same extent and product (other core and/or a "
             "sideloaded annotation); regions built directly (`Region(candidates, subregions)`) or by `create_candidate_clusters` + "
-            "`create_regions`; plus `pack` alone on unsorted area lists; thorough/deep adds the small scope L=24, protocluster "
+            "`create_regions`; plus `pack` alone on unsorted area lists; plus the collection constructor alone on 1-3 part locations (every "
+            "check of CDSCollection.__init__/Feature.__init__ reachable); thorough/deep adds the small scope L=24, protocluster "
             "extents/cores on a 4-grid of the ring (every single and every pair exhaustively, triples sampled), each with "
             "and without an origin-spanning subregion and with origin-spanning genes.  non-trivial = the region extends over the origin "
             "(origin-spanning or whole circular record) with >=1 origin-spanning area or gene, or some row holds >=2 "
@@ -260,11 +261,31 @@ class C19(Property):
         length = rng.choice([-1, -1, -1, L, L // 2, 0, -5])
         return {"kind": "pack", "L": L, "areas": areas, "length": length}
 
+    def rand_construct(self, rng: random.Random) -> Dict[str, Any]:
+        """a location handed to the real collection constructor: mostly near-valid, every check reachable"""
+        L = rng.choice([24, 100])
+        strand = rng.choice([1, 1, 1, -1, 0, None])
+
+        def part(lo_choices: List[int]) -> List[Any]:
+            lo = rng.choice(lo_choices)
+            hi = rng.choice([lo, lo + 1, lo + 5, L, L // 2])
+            st = strand if rng.random() < 0.9 else rng.choice([1, -1, None])
+            return [lo, max(hi, lo), st]
+        n = rng.choice([1, 1, 2, 2, 2, 3])
+        if n == 1:
+            return {"kind": "construct", "L": L, "loc": {"c": False, "parts": [part([-1, 0, 0, 3, L // 2])]}}
+        parts = [part([0, 3, L // 2, L - 5])] + [part([0, 0, 0, 1, 4]) for _ in range(n - 1)]
+        if rng.random() < 0.2:
+            parts[1][1] = parts[0][1]       # exons sharing an end
+        return {"kind": "construct", "L": L, "loc": {"c": True, "parts": parts}}
+
     def cases(self, rng: random.Random, tier: str, deep: bool) -> Iterator[Dict[str, Any]]:
         n = 60000 if deep else 11000
         for i in range(n):
             if i % 8 == 7:
                 yield self.rand_pack(rng)
+            elif i % 8 == 3:
+                yield self.rand_construct(rng)
             else:
                 yield self.rand_layout(rng)
         if deep:
@@ -352,6 +373,17 @@ class C19(Property):
         logging.disable(logging.CRITICAL)       # `add_region` logs refused inputs
         if case["kind"] == "pack":
             return self.run_pack(case)
+        if case["kind"] == "construct":
+            from antismash.common.secmet.features import SubRegion
+            try:
+                location = common.make_location(case["loc"])
+            except Exception as exc:  # pylint: disable=broad-except
+                return {"rejected": err_kind(exc)}      # Biopython refuses the location itself
+            try:
+                SubRegion(location, "tool")
+            except (ValueError, AssertionError) as exc:
+                return {"init": err_kind(exc)}
+            return {"init": "ok"}
         from antismash.common.secmet.features import CandidateCluster, Protocluster, Region, SubRegion
         from antismash.common.secmet.features.candidate_cluster.structures import CandidateClusterKind
         from antismash.common.secmet.features.protocluster import SideloadedProtocluster
@@ -459,6 +491,8 @@ class C19(Property):
     def driver_line(self, case: Dict[str, Any], obs: Dict[str, Any]) -> Optional[Dict[str, Any]]:
         if "rejected" in obs:
             return None
+        if case["kind"] == "construct":
+            return {"kind": "construct", "L": case["L"], "loc": case["loc"]}
         if case["kind"] == "pack":
             return {"kind": "pack", "L": case["L"], "length": case["length"],
                     "areas": [{"loc": loc, "kind": "sub"} for loc in case["areas"]]}
@@ -478,6 +512,14 @@ class C19(Property):
             return Judgement(False, True, detail=f"driver error {drv['err']}")
         if case["kind"] == "pack":
             return self.judge_pack(case, obs, drv)
+        if case["kind"] == "construct":
+            corr = obs["init"] == drv["init"]
+            # a well-formed location must be constructible (theorem wellformed_is_constructible)
+            spec_ok = not drv["coll_ok"] or obs["init"] == "ok"
+            return Judgement(corr, spec_ok, in_scope=True, nontrivial=len(case["loc"]["parts"]) > 1,
+                             tags=("construct", "init-" + obs["init"], "collOK" if drv["coll_ok"] else "not-collOK"),
+                             detail="" if corr and spec_ok else
+                             f"constructor on {case['loc']}: model {drv['init']} vs implementation {obs['init']}")
         if "err" in obs:
             scope = all(r["scope_areas"] and r["scope_genes"] for r in drv["regions"])
             # the model signals the same refusal (assert / ValueError) as `areas: null`
@@ -585,6 +627,8 @@ class C19(Property):
 
     # ------------------------------------------------------------------ shrinking
     def shrink(self, case: Dict[str, Any]) -> Iterator[Dict[str, Any]]:
+        if case["kind"] == "construct":
+            return
         if case["kind"] == "pack":
             for i in range(len(case["areas"])):
                 yield dict(case, areas=case["areas"][:i] + case["areas"][i + 1:])
